@@ -49,11 +49,10 @@ def r20_1(ctx: Ctx) -> None:
             ctx.need(d is not None, f"{cn}.decompress vanished")
             n += 1
             ml = d.params[2] if len(d.params) > 2 else None
-            fwd = False
-            for call in q.calls(d):
-                if attr_tail(call) in ("decompress", "decode", "inflate", "process") and isinstance(call.func, ast.Attribute) and "self." in norm(call.func.value):
-                    if ml is not None and any(isinstance(a, ast.Name) and a.id == ml for a in list(call.args) + [k.value for k in call.keywords]):
-                        fwd = True
+            inner = [call for call in q.calls(d) if attr_tail(call) in ("decompress", "decode", "inflate", "process") and isinstance(call.func, ast.Attribute)
+                     and "self." in norm(call.func.value)]
+            fwd = bool(inner) and ml is not None and all(any(isinstance(a, ast.Name) and a.id == ml for a in list(call.args) + [k.value for k in call.keywords])
+                                                         for call in inner)
             # or the class bounds its own output with an internal buffer
             bounded_self = ml is not None and any(isinstance(x, ast.Subscript) and isinstance(x.slice, ast.Slice) and any(isinstance(y, ast.Name) and y.id == ml for y in ast.walk(x.slice)) for x in walk(d.node))
             ctx.check(fwd or bounded_self, "R20.1", d, d.node, f"{cn}.decompress honours max_length",
